@@ -44,7 +44,8 @@ ASSUMPTIONS = [
     'framework messages are emitted only while the receiving runs are known to be active',
 ]
 REQUIRED_COUNTERS = ['messages_emitted', 'messages_looked_up', 'records_judged',
-                     'mac_cases', 'schedules_paused', 'handler_counts_checked']
+                     'mac_cases', 'schedules_paused', 'handler_counts_checked',
+                     'killed_logger_runs']
 EXHAUSTIVE = {'quick': True, 'thorough': True}
 PLAN = {
     'quick': {'workers': 16, 'budget_s': 50, 'sampled_per_worker': 40,
@@ -97,6 +98,8 @@ def enumerated(tier):
         yield {'k': 'shape', 'uid': 0, 'kind': kind, 'shape': shape, 'mac': mi}
   for shape in MSG_SHAPES:
     yield {'k': 'test', 'shape': shape}
+  for where in ('phase_logger', 'framework_logger'):
+    yield {'k': 'killed_logger', 'where': where}
   # with console logging switched on (-vv): a handler ahead of the record handlers
   for shape in ('plain', 'percent_args', 'mac_in_arg', 'nonstr_arg'):
     for kind in LOGGER_KINDS:
@@ -930,7 +933,108 @@ def run_exec_sched(case):
           'counters': c}
 
 
+def run_killed_logger(case):
+  """A phase is killed (time-out) while the record handler is saving one of its
+  messages (the message takes for ever to format).  Everything logged to the
+  run afterwards - by the teardown phase, by a thread using the run's record
+  logger, by the framework - still has to be captured exactly once."""
+  htf = pm.htf()
+  logs = _S['logs']
+  vc = pm._H['vc']  # pylint: disable=protected-access
+  viol, c = [], new_counters()
+  st = {'uid': None, 'in_emit': 0}
+  bodies = []
+  helper_done = threading.Event()
+
+  class NeverFormatted:
+
+    def __str__(self):
+      if any(h.lock._is_owned() for h in record_handlers()):  # pylint: disable=protected-access
+        # formatting inside RecordHandler.emit(): stay here until killed
+        st['in_emit'] += 1
+        me = threading.current_thread()
+        with vc.cv:
+          vc.hung.add(me)        # the virtual clock jumps to the deadline
+          vc.cv.notify_all()
+        while True:
+          time.sleep(0.0005)
+      return 'text'
+
+  @htf.PhaseOptions(timeout_s=10)
+  def stuck(test):
+    bodies.append(threading.current_thread())
+    test.logger.info('before-kill')
+    if case['where'] == 'phase_logger':
+      test.logger.info('%s', NeverFormatted())
+    else:
+      logging.getLogger('openhtf.vf_framework_child').warning('%s', NeverFormatted())
+
+  def wrap_up(test):
+    test.logger.info('after-kill-1')
+    test.logger.warning('after-kill-2')
+    rl = [h for h in record_handlers()]
+    uid = rl[-1].test_uid if rl else None
+
+    def helper():
+      logs.get_record_logger_for(uid).info('helper-after-kill')
+      helper_done.set()
+    th = threading.Thread(target=helper, name='vf-helper', daemon=True)
+    th.start()
+    helper_done.wait(3)
+    logging.getLogger('openhtf.vf_framework_child').info('framework-after-kill')
+
+  t = htf.Test(htf.PhaseGroup(main=[stuck], teardown=[wrap_up]))
+  recs = []
+  t.add_output_callbacks(recs.append)
+  old_hook = threading.excepthook
+  threading.excepthook = lambda a: None
+  done = {}
+
+  def runner():
+    try:
+      done['ret'] = t.execute()
+    except BaseException as e:  # pylint: disable=broad-except
+      done['exc'] = repr(e)
+
+  th = threading.Thread(target=runner, name='vf-runner', daemon=True)
+  try:
+    th.start()
+    th.join(30)
+  finally:
+    threading.excepthook = old_hook
+    with vc.cv:
+      for b in bodies:
+        vc.hung.discard(b)
+    if not th.is_alive():
+      pm.settle()
+      pm.prune_handlers()
+  ctx = {'where': case['where'], 'killed_inside_emit': st['in_emit']}
+  if th.is_alive() or not recs:
+    viol.append({'mechanism': 'run-did-not-end-after-logger-was-killed',
+                 'detail': dict(ctx, done=done)})
+    return {'sig': ['killed_logger', case['where']], 'violations': viol, 'counters': c}
+  c['records_judged'] += 1
+  c['killed_logger_runs'] = 1 if st['in_emit'] else 0
+  msgs = [r.message for r in recs[0].log_records]
+  for want in ('before-kill', 'after-kill-1', 'after-kill-2', 'helper-after-kill',
+               'framework-after-kill'):
+    c['messages_emitted'] += 1
+    c['messages_looked_up'] += 1
+    n = msgs.count(want)
+    if n != 1:
+      viol.append({'mechanism': 'message-%s-after-a-logging-thread-was-killed' % (
+          'lost' if n == 0 else 'recorded-more-than-once'),
+                   'detail': dict(ctx, message=want, count=n, recorded=msgs[-8:])})
+      break
+  else:
+    if msgs.index('after-kill-1') > msgs.index('after-kill-2'):
+      viol.append({'mechanism': 'messages-out-of-order', 'detail': ctx})
+  return {'sig': ['killed_logger', case['where']], 'violations': viol, 'counters': c}
+
+
 def run_case(case):
+  if case['k'] == 'killed_logger':
+    return run_killed_logger(case)
   return {'shape': run_shape, 'test': run_test, 'sched': run_sched,
           'stress': run_stress, 'seq': run_seq,
           'exec_sched': run_exec_sched,
